@@ -187,6 +187,54 @@ CLAIMED.update({
     ),
 })
 
+CLAIMED.update({
+    "C02": dict(
+        level="other",
+        note="Trusted: CPython ast; C01's codec model; the syntactic package-internal call resolution of sa/escape.py (unresolved "
+        "calls are listed in the evidence). Not decided: that every PS3.8-conformant PDU is accepted, and value-level re-encode "
+        "fixed points over all byte strings (string stripping / codecs).",
+        technique="typestate over a hand-built CFG (one event per outcome) + call-graph escape analysis of raise sites + loop-progress check + symbolic length summaries (ast)",
+        ref="4/C02",
+    ),
+    "C05": dict(
+        level="other",
+        note="Trusted: CPython ast; C04's verified table and per-action effects; Timer semantics decided by C09. Not decided: which "
+        "(user-originated event, state) pairs the local association thread can produce under all interleavings (schedule-"
+        "quantified); one genuine ARTIM finding is listed in known_findings.json.",
+        technique="must-pass-through on action paths + fixpoint over (FSM state x abstract ARTIM state) + escape analysis (ast)",
+        ref="4/C05",
+    ),
+    "C12": dict(
+        level="other",
+        note="Trusted: CPython ast. Not decided: the validators' semantics on arbitrary strings (VR rules), user-supplied "
+        "extended-negotiation items.",
+        technique="dominance over a hand-built CFG + shape matching of the item builders + who-writes queries on wire string fields (ast)",
+        ref="4/C12",
+    ),
+    "C19": dict(
+        level="other",
+        note="Trusted: CPython ast; method resolution by name inside the service_class* modules. Not decided: what abort() then "
+        "does on the wire; data-set fragments of one message arriving on a different context id than its command fragments.",
+        technique="who-may-call closure over the service-class family + dominance of the accepted-context lookup over a hand-built CFG + def-use of the context id (ast)",
+        ref="4/C19",
+    ),
+    "C26": dict(
+        level="other",
+        note="Trusted: CPython ast; logging does not raise into its caller. Not decided: byte-identical exchanges (a handler may "
+        "itself call abort()/release()), side effects of logging.",
+        technique="try/handler shape analysis + typestate correlated with the event-kind test over a hand-built CFG + enclosure check of every intervention trigger site (ast)",
+        ref="4/C26",
+    ),
+    "C30": dict(
+        level="other",
+        note="Trusted: CPython ast and re._parser (used on literal patterns only); POSIX/NT semantics that opening an existing "
+        "directory for writing fails. Not decided: symlinks planted inside the storage directory, the database engine's own files, "
+        "paths read back from the database (guarded at the point they are stored).",
+        technique="intraprocedural path taint analysis with a regex-AST sanitiser check over every write sink in pynetdicom/apps (ast)",
+        ref="4/C30",
+    ),
+})
+
 PENDING = "designed in DESIGN.md section 4, checker not built yet - not claimed through a stub"
 
 NOT_APPLICABLE = {
